@@ -15,7 +15,7 @@ package sourcewrap
 //@   props C20
 //@   safety C16
 //@   requires t != nil && typ != nil && t.src != nil
-//@   modifies rec_translateType, rec_reverseTranslate, rec_sourceValue
+//@   modifies rec_translateType, rec_reverseTranslate, rec_sourceValue, rh
 //@   ensures C20_translate_error_propagates: rec_translateType_res1[old(rec_translateType_cnt)] != nil ==> err != nil && rec_sourceValue_cnt == old(rec_sourceValue_cnt)
 //@   ensures C20_inner_gets_translated_type: rec_translateType_res1[old(rec_translateType_cnt)] == nil ==>
 //@        rec_sourceValue_cnt == old(rec_sourceValue_cnt) + 1 && rec_sourceValue_arg0[old(rec_sourceValue_cnt)] == t.src
@@ -32,7 +32,7 @@ package sourcewrap
 //@   props C20
 //@   safety C16
 //@   requires t != nil && typ != nil && t.inner != nil
-//@   modifies rec_translateType, rec_reverseTranslate, rec_decode
+//@   modifies rec_translateType, rec_reverseTranslate, rec_decode, rh
 //@   ensures C20_translate_error_propagates: rec_translateType_res1[old(rec_translateType_cnt)] != nil ==> err != nil && rec_decode_cnt == old(rec_decode_cnt)
 //@   ensures C20_inner_gets_translated_type: rec_translateType_res1[old(rec_translateType_cnt)] == nil ==>
 //@        rec_decode_cnt == old(rec_decode_cnt) + 1 && rec_decode_arg0[old(rec_decode_cnt)] == t.inner
@@ -70,7 +70,7 @@ package sourcewrap
 //@   props C20
 //@   safety C16
 //@   requires w != nil && w.WatchArgs != nil && w.tfm != nil
-//@   modifies rec_reverseTranslate, rec_waReport
+//@   modifies rec_reverseTranslate, rec_waReport, rh
 //@   ensures C20_update_is_reverse_translated: rec_reverseTranslate_cnt == old(rec_reverseTranslate_cnt) + 1
 //@        && rec_reverseTranslate_arg0[old(rec_reverseTranslate_cnt)] == w.tfm && rec_reverseTranslate_arg1[old(rec_reverseTranslate_cnt)] == val
 //@   ensures C20_translated_update_is_forwarded: rec_reverseTranslate_res1[old(rec_reverseTranslate_cnt)] == nil ==>
@@ -84,7 +84,7 @@ package sourcewrap
 //@   props C20
 //@   safety C16
 //@   requires w != nil && w.WatchArgs != nil && w.tfm != nil
-//@   modifies rec_reverseTranslate, rec_waBlockingReport
+//@   modifies rec_reverseTranslate, rec_waBlockingReport, rh
 //@   ensures C20_update_is_reverse_translated: rec_reverseTranslate_cnt == old(rec_reverseTranslate_cnt) + 1
 //@        && rec_reverseTranslate_arg0[old(rec_reverseTranslate_cnt)] == w.tfm && rec_reverseTranslate_arg1[old(rec_reverseTranslate_cnt)] == val
 //@   ensures C20_translated_update_is_forwarded: rec_reverseTranslate_res1[old(rec_reverseTranslate_cnt)] == nil ==>
